@@ -579,7 +579,10 @@ pub fn lex(text: &str) -> (Vec<String>, usize) {
                     j += 1;
                 }
             }
-            toks.push(format!("T:{}", unescape(&body)));
+            // an empty string literal is an empty keyword: dropped by design (documented)
+            if !body.is_empty() {
+                toks.push(format!("T:{}", unescape(&body)));
+            }
             i = j + 1;
         } else if c == '|' {
             if i + 1 < cs.len() && cs[i + 1] == '|' {
@@ -1035,7 +1038,14 @@ fn oracles(ctx: &mut Ctx, rep: &mut Rep, rnd: &Renderer, family: &str, q: &str, 
     if good {
         let a = probe_rows(q, PROBE.as_bytes());
         let b = probe_rows(&canon, PROBE.as_bytes());
-        if a.is_some() && b.is_some() && a != b {
+        // the ASTs are equal, so a difference can only be run-to-run nondeterminism (hash order
+        // reaching the output: C13's business): a failure needs disjoint sets over repeated runs
+        let differs = a.is_some() && b.is_some() && a != b && {
+            let sa: Vec<_> = (0..4).filter_map(|_| probe_rows(q, PROBE.as_bytes())).collect();
+            let sb: Vec<_> = (0..4).filter_map(|_| probe_rows(&canon, PROBE.as_bytes())).collect();
+            !sa.iter().any(|x| sb.contains(x) || Some(x) == b.as_ref()) && !sb.iter().any(|x| Some(x) == a.as_ref())
+        };
+        if differs {
             let mut i = info.clone();
             i["canonical"] = serde_json::json!(canon);
             rep.fail(ctx, family, q, "C04/canonical-text-runs-differently", "original and canonical text give different output on the probe input", i);
